@@ -127,7 +127,7 @@ fn aux_section(seed: u8) -> refmodel::ser::AuxPow {
         coinbase_mask: 5,
         chain_branch: vec![[seed.wrapping_add(2); 32]],
         chain_mask: 0,
-        parent_header: refmodel::ser::Header { version: 0x2000_0000, prev: [seed.wrapping_add(3); 32], merkle: [seed.wrapping_add(4); 32], time: 1_400_000_000 + seed as u32 * 7919, bits: 0x1b00ffff, nonce: 42 },
+        branch_wide: 0, parent_header: refmodel::ser::Header { version: 0x2000_0000, prev: [seed.wrapping_add(3); 32], merkle: [seed.wrapping_add(4); 32], time: 1_400_000_000 + seed as u32 * 7919, bits: 0x1b00ffff, nonce: 42 },
     }
 }
 
@@ -299,7 +299,12 @@ pub fn run_c16() -> Report {
         || Report::new("C16", "e1"),
         |w, _i, (c, (s0, e0)), acc| {
             let wk = Worker::new(&root, w);
-            let others = representatives(c, true).into_iter().filter(|s| s.first() != Some(&0x6a)).collect::<Vec<_>>();
+            let mut others = representatives(c, true).into_iter().filter(|s| s.first() != Some(&0x6a)).collect::<Vec<_>>();
+            // scripts the evaluator comments on in the log while it works (version-0 witness programs of a length that is
+            // neither 20 nor 32 bytes): no OP_RETURN, nothing to print, and the lines of their neighbours are due all the same
+            for (k, n) in [2usize, 5, 19, 21, 25, 33, 40].into_iter().enumerate() {
+                others.insert((k * 3 + 1).min(others.len()), script::witness(0, &script::filler(70 + k as u8, n)));
+            }
             let mut cb = ChainBuilder::with_genesis(c);
             let mut txs: Vec<Tx> = Vec::new();
             // transactions of 2..18 outputs (not all alike: a split of the outputs over the workers leaves remainders)
